@@ -40,6 +40,7 @@ type World struct {
 	curFunc    string
 	ErrIDs     map[*ssa.Global]int
 	LemmaUses  map[string]map[string]bool
+	initPhase  bool
 }
 
 func LoadWorld(repo string, tags string, overlay map[string][]byte, patterns []string) (*World, error) {
@@ -325,6 +326,21 @@ func (w *World) globalValue(st *State, g *ssa.Global) Value {
 	ty := tyFromGo(g.Type().(*types.Pointer).Elem())
 	v := w.symbolicGlobal(g, ty)
 	st.globals[g] = v
+	if !w.initPhase {
+		// global invariants are assumed lazily, when a table is first touched on a path
+		for _, gi := range w.GlobalInvs {
+			if gi.Name != g.Name() || gi.Pkg != g.Pkg.Pkg.Path() {
+				continue
+			}
+			gev := &Env{W: w, st: st, pkg: g.Pkg, bound: map[string]SVal{}}
+			t, err := gev.EvalBool(gi.E)
+			if err != nil {
+				w.errorf("global invariant %s: %v", gi.Name, err)
+				continue
+			}
+			st.assume(t)
+		}
+	}
 	return v
 }
 
